@@ -32,6 +32,7 @@ import (
 // observation: ((items ((req #method (hdr ...) datalen #first64) (resp status (hdr ...) datalen #first64) variant) ...) (left q r))
 func init() {
 	families["http2.conv"] = &Family{Gen: genHttp2Conv, Run: runHttp2Conv}
+	families["http2.raw"] = &Family{Gen: genHttp2Raw, Run: runHttp2Conv}
 }
 
 func encH2Half(isClient bool, frames sx.Sx) []byte {
@@ -75,6 +76,9 @@ func encH2Half(isClient bool, frames sx.Sx) []byte {
 		case "dz":
 			data := bytes.Repeat([]byte{byte(f.List[4].Int())}, int(f.List[3].Int()))
 			writeData(fr, uint32(f.List[1].Int()), f.List[2].Atom == "true", data)
+		case "dz1": // one DATA frame, whatever its size (up to 2^24-1 is legal with a raised SETTINGS_MAX_FRAME_SIZE)
+			data := bytes.Repeat([]byte{byte(f.List[4].Int())}, int(f.List[3].Int()))
+			fr.WriteData(uint32(f.List[1].Int()), f.List[2].Atom == "true", data)
 		case "o":
 			sid := uint32(f.List[2].Int())
 			switch f.List[1].Atom {
@@ -293,5 +297,78 @@ func genHttp2Conv(r *Rand, tier string, emit func(sx.Sx)) {
 			return out
 		}
 		emit(sx.L(sx.L(append([]sx.Sx{sx.A("c")}, merge(cstreams)...)...), sx.L(append([]sx.Sx{sx.A("s")}, merge(sstreams)...)...)))
+	}
+}
+
+// Family http2.raw (C01): frame scripts no peer would send, all of which x/net/http2's Framer
+// delivers: DATA before (or without) HEADERS, frames after END_STREAM, END_STREAM twice, bodies
+// at and around the 1 MiB cap in one or several DATA frames with and without headers, on either
+// half. The model must predict the dissector; nothing may panic.
+func genHttp2Raw(r *Rand, tier string, emit func(sx.Sx)) {
+	kv := func(n, v string) sx.Sx { return sx.L(sx.S(n), sx.S(v)) }
+	reqH := func(sid int, end bool) sx.Sx {
+		return sx.L(sx.A("h"), sx.N(sid), sx.Bool(end), sx.L(kv(":method", "POST"), kv(":scheme", "http"), kv(":path", "/p"), kv(":authority", "a")), sx.N(0))
+	}
+	respH := func(sid int, end bool) sx.Sx {
+		return sx.L(sx.A("h"), sx.N(sid), sx.Bool(end), sx.L(kv(":status", "200"), kv("server", "s")), sx.N(0))
+	}
+	single := false
+	dz := func(sid int, end bool, n int) sx.Sx {
+		kind := "dz"
+		if single {
+			kind = "dz1"
+		}
+		return sx.L(sx.A(kind), sx.N(sid), sx.Bool(end), sx.N(n), sx.N(65+r.Intn(20)))
+	}
+	half := func(side string, fs ...sx.Sx) sx.Sx { return sx.L(append([]sx.Sx{sx.A(side)}, fs...)...) }
+	// fixed: bodies at the cap, with and without headers, in one and in two pieces, on each half
+	for _, first := range []int{1048575, 1048576, 1048577, 2097153} {
+		for _, second := range []int{0, 1, 10} {
+			for _, variant := range []int{0, 1, 2, 3} {
+				headers := variant&1 == 0
+				single = variant&2 != 0
+				var cf, sf []sx.Sx
+				if headers {
+					cf, sf = append(cf, reqH(1, false)), append(sf, respH(1, false))
+				}
+				cf = append(cf, dz(1, second == 0, first))
+				sf = append(sf, dz(1, second == 0, first))
+				if second > 0 {
+					cf, sf = append(cf, dz(1, true, second)), append(sf, dz(1, true, second))
+				}
+				emit(sx.L(half("c", cf...), half("s", sf...)))
+				emit(sx.L(half("c", cf...), half("s", respH(1, true))))
+				emit(sx.L(half("c", reqH(1, true)), half("s", sf...)))
+			}
+		}
+	}
+	n := 150
+	if tier == "thorough" {
+		n = 1500
+	}
+	for i := 0; i < n; i++ {
+		mk := func(isClient bool) []sx.Sx {
+			var fs []sx.Sx
+			for k := 1 + r.Intn(7); k > 0; k-- {
+				sid := 1 + 2*r.Intn(3)
+				end := r.Chance(35)
+				switch r.Intn(6) {
+				case 0, 1:
+					if isClient {
+						fs = append(fs, reqH(sid, end))
+					} else {
+						fs = append(fs, respH(sid, end))
+					}
+				case 2, 3:
+					fs = append(fs, sx.L(sx.A("d"), sx.N(sid), sx.Bool(end), sx.B(r.Bytes(r.Intn(50)))))
+				case 4:
+					fs = append(fs, sx.L(sx.A("h"), sx.N(sid), sx.Bool(end), sx.L(kv("x-trailer", "t"), kv("grpc-status", "0")), sx.N(0)))
+				case 5:
+					fs = append(fs, sx.L(sx.A("o"), sx.A([]string{"settings", "ping", "window", "priority", "rst"}[r.Intn(5)]), sx.N(sid)))
+				}
+			}
+			return fs
+		}
+		emit(sx.L(half("c", mk(true)...), half("s", mk(false)...)))
 	}
 }
